@@ -137,7 +137,7 @@ def make_jnp():
     ns = _Namespace("symjnp")
     ns.__real__ = real_jnp
     # dtypes / constants (pass-through objects)
-    for nm in ("float32", "float64", "float16", "bfloat16", "complex64", "complex128", "int32", "int64", "int8", "int16", "uint8", "uint16", "uint32", "bool_", "pi", "inf", "nan", "newaxis", "e", "dtype", "floating", "complexfloating", "integer", "number", "inexact", "ndarray", "issubdtype"):
+    for nm in ("float32", "float64", "float16", "bfloat16", "complex64", "complex128", "int32", "int64", "int8", "int16", "uint8", "uint16", "uint32", "bool_", "bool", "pi", "inf", "nan", "newaxis", "e", "dtype", "floating", "complexfloating", "integer", "number", "inexact", "ndarray", "issubdtype"):
         if hasattr(real_jnp, nm):
             setattr(ns, nm, getattr(real_jnp, nm))
 
@@ -150,12 +150,14 @@ def make_jnp():
     ns.zeros_like = lambda a, dtype=None, **k: A.zeros(asarray(a).shape, dtype or asarray(a).kind)
     ns.ones_like = lambda a, dtype=None, **k: A.ones(asarray(a).shape, dtype or asarray(a).kind)
     ns.full_like = lambda a, v, dtype=None, **k: A.full(asarray(a).shape, v, dtype or asarray(a).kind)
+    ns.copy = lambda a, **k: asarray(a).copy()  # arrays are immutable values: a copy is elementwise equal
     ns.eye = A.eye
     ns.arange = A.arange
     ns.where = A.where
     ns.stack = A.stack
+    ns.column_stack = _column_stack
     ns.concatenate = A.concatenate
-    ns.pad = A.pad
+    ns.pad = lambda array, pad_width, mode="constant", **kw: A.pad(array, pad_width, mode, **kw)  # jnp.pad's first parameter is named `array`
     ns.roll = A.roll
     ns.flip = A.flip
     ns.tile = A.tile
@@ -173,6 +175,7 @@ def make_jnp():
     ns.argmax = A.argmax
     ns.argmin = A.argmin
     ns.cross = A.cross
+    ns.gradient = A.gradient
     ns.matmul = A.matmul
     ns.dot = A.matmul
     ns.shape = lambda a: asarray(a).shape
@@ -237,6 +240,9 @@ def make_jnp():
     ns.less_equal = lambda a, b: asarray(a) <= b
     ns.greater_equal = lambda a, b: asarray(a) >= b
     ns.isclose = lambda a, b, rtol=1e-5, atol=1e-8, **k: abs(asarray(a) - b) <= (atol + rtol * abs(asarray(b)))
+    ns.allclose = lambda a, b, rtol=1e-5, atol=1e-8, **k: (abs(asarray(a) - b) <= (atol + rtol * abs(asarray(b)))).all()
+    ns.diff = _diff
+    ns.searchsorted = _searchsorted
     ns.finfo = lambda dt: _FakeFloatInfo
 
     lin = _Namespace("symjnp.linalg")
@@ -246,6 +252,69 @@ def make_jnp():
     lin.norm = _norm
     ns.linalg = lin
     return ns
+
+
+def _diff(a, n=1, axis=-1, **kw):
+    """numpy/jnp.diff: first differences a[1:] - a[:-1] along `axis` (n == 1, no prepend/append)."""
+    a = asarray(a)
+    if n != 1 or kw:
+        raise Unsupported(f"diff with n={n} / {sorted(kw)}")
+    if a.kind == "bool":
+        raise Unsupported("diff of a boolean array")
+    if a.ndim == 0:
+        raise ValueError("diff requires input that is at least one dimensional")
+    ax = axis + a.ndim if axis < 0 else axis
+    hi = [slice(None)] * a.ndim
+    lo = [slice(None)] * a.ndim
+    hi[ax] = slice(1, None)
+    lo[ax] = slice(None, -1)
+    return a[tuple(hi)] - a[tuple(lo)]
+
+
+def _searchsorted(a, v, side="left", sorter=None, **kw):
+    """numpy/jnp.searchsorted for a 1-D array of concrete length that is PROVABLY sorted on the
+    current path (the result is unspecified otherwise): number of entries < v (left) / <= v (right)."""
+    if sorter is not None or kw:
+        raise Unsupported("searchsorted with sorter/method")
+    if side not in ("left", "right"):
+        raise ValueError(f"side must be 'left' or 'right', got {side!r}")
+    a = asarray(a)
+    if a.ndim != 1 or not _is_pyint(a.shape[0]):
+        raise Unsupported("searchsorted over a symbolic-length or N-d array (needs a contract)")
+    vals = [A._bool_to_num(a.at_index((j,))) for j in range(a.shape[0])]
+    for p, q in zip(vals, vals[1:]):
+        le = p <= q if (A.is_sym(p) or not A.is_sym(q)) else q >= p
+        if isinstance(le, SymBool):
+            if not ctx().implied(le.z):
+                raise Unsupported("searchsorted: input not provably sorted on this path")
+        elif not le:
+            raise Unsupported("searchsorted: input is not sorted")
+
+    def count(x):
+        x = A._bool_to_num(x)
+        tot = 0
+        for e in vals:
+            if A.is_sym(e):
+                c = (e < x) if side == "left" else (e <= x)
+            else:
+                c = (x > e) if side == "left" else (x >= e)
+            tot = tot + (int(c) if isinstance(c, bool) else c._num())
+        return tot
+
+    if isinstance(v, (SymNum, SymBool, int, float, Fraction, bool)):
+        r = count(v)
+        return SymArray((), lambda idx: r, "int", memo=False)
+    return asarray(v)._map(count, "int")
+
+
+def _column_stack(arrs):
+    """numpy/jnp.column_stack for 1-D (stacked as columns) and 2-D (concatenated along axis 1) inputs"""
+    arrs = [asarray(x) for x in arrs]
+    if all(x.ndim == 1 for x in arrs):
+        return A.stack(arrs, axis=1)
+    if all(x.ndim in (1, 2) for x in arrs):
+        return A.concatenate([x if x.ndim == 2 else A.expand_dims(x, 1) for x in arrs], axis=1)
+    raise Unsupported("column_stack of arrays with ndim > 2")
 
 
 def _result_type(*args):
@@ -433,6 +502,14 @@ def make_jax():
     lax.dynamic_index_in_dim = lambda a, i, axis=0, keepdims=True: (A.expand_dims(A.take(a, i, axis=axis), axis) if keepdims else A.take(a, i, axis=axis))
     ns.lax = lax
     ns.vmap = _vmap
+    from . import signal as _signal
+
+    sp = _Namespace("symjax.scipy")
+    sig = _Namespace("symjax.scipy.signal")
+    sig.convolve = _signal.convolve_nd
+    sig.convolve2d = _signal.convolve2d
+    sp.signal = sig
+    ns.scipy = sp
     return ns
 
 
@@ -474,7 +551,9 @@ def _vmap(f, in_axes=0, out_axes=0, **kw):
                 n = asarray(a).shape[ax]
                 break
         if not _is_pyint(n):
-            raise Unsupported("vmap over a symbolic axis")
+            from .signal import lazy_vmap_call
+
+            return lazy_vmap_call(f, args, axes, out_axes, n)
         outs = []
         for i in range(n):
             call = [A.take(asarray(a), i, axis=ax) if ax is not None else a for a, ax in zip(args, axes)]
@@ -521,6 +600,19 @@ def make_math():
 
     for nm in ("sqrt", "floor", "ceil", "fabs", "exp", "log", "sin", "cos", "tan", "tanh", "atan", "isfinite", "isnan", "isinf", "expm1", "log10"):
         setattr(ns, nm, lift(nm, getattr(_math, nm)))
+
+    def isclose(a, b, *, rel_tol=1e-09, abs_tol=0.0):
+        """math.isclose over the reals: a == b or |a-b| <= max(rel_tol*max(|a|,|b|), abs_tol)
+        (symbolic reals are finite, so the inf/nan clauses of the CPython definition do not arise)"""
+        if not (A.is_sym(a) or A.is_sym(b) or A.is_sym(rel_tol) or A.is_sym(abs_tol)):
+            return _math.isclose(a, b, rel_tol=rel_tol, abs_tol=abs_tol)
+        if a is b:
+            return True
+        diff = abs(a - b)
+        bound = sym_max(rel_tol * sym_max(abs(a), abs(b)), abs_tol)
+        return A._vor(v_eq(a, b), diff <= bound)
+
+    ns.isclose = isclose
     return ns
 
 
@@ -585,6 +677,9 @@ def _unshim_class(c):
 
 
 def sym_isinstance(obj, cls):
+    # PEP 604 unions (`isinstance(x, float | int | str)`) mean the same as the tuple of their members
+    if builtins.isinstance(cls, types.UnionType):
+        cls = tuple(cls.__args__)
     cls = tuple(_unshim_class(c) for c in cls) if builtins.isinstance(cls, tuple) else _unshim_class(cls)
     if builtins.isinstance(obj, SymNum):
         classes = cls if builtins.isinstance(cls, tuple) else (cls,)
